@@ -179,8 +179,9 @@ def r2(ctx: Ctx, prog: sf.SqlProgram) -> None:
 
     results = jg.explore(scn.dom, run)
     n_trans = sum(1 for _, (f_, t_) in results if t_)
-    ctx.need(n_trans > 0, 'mark_job_complete: no abstract case makes the job\'s own terminal transition (own-state update not recognised)')
-    ctx.need(stmts_seen, 'mark_job_complete: no statement updates jobs')
+    mism = any('children only' in f_ for _, (f_, t_) in results)
+    ctx.need(n_trans > 0 or mism, 'mark_job_complete: no abstract case makes the job\'s own terminal transition (own-state update not recognised)')
+    ctx.need(stmts_seen or mism, 'mark_job_complete: no statement updates jobs')
     first: Dict[str, Tuple[str, str, int]] = {}
     for case, (fails, _) in results:
         for k, v in fails.items():
@@ -201,114 +202,102 @@ NONTERMINAL = {'Pending', 'Ready', 'Creating', 'Running'}
 
 
 def r3(ctx: Ctx, prog: sf.SqlProgram) -> None:
-    """Commit of a later update, by interpretation of the effective commit_batch_update over a micro-world: the update's jobs are a
-    child under test (every multiset of <= 2 parents: earlier-update parent in each of the 8 states or without a job row, same-update
-    parent; every stored n_pending_parents reachable while the update was open; cancelled 0/1), a second child with a running parent,
-    a parentless job; around them an earlier running job with a finished parent, the job just above the reserved id range and a
-    look-alike child in another batch.  Composite effect required: pending = parents not in a terminal state, Ready iff 0, cancelled
-    raised iff a finished parent did not succeed; every other job untouched."""
+    """Commit of a later update: COMPOSITE effect of the effective commit_batch_update on a generic job of the update, by ABSTRACT
+    execution.  The job's parent edges are abstracted to count classes m[c] (0 / >= 1, split where the code tests them) per class c =
+    (state of the parent's job row, or no job row) x (parent of an earlier update | of the same update); aggregates SUM(f(state)) of
+    the recount become linear forms sum f(c) * m[c], f being tabulated over the enum; the stored n_pending_parents is the free symbol
+    v0.  Required in every case in which this call commits an update (id >= 2) with jobs: n_pending_parents' = sum of m[c] over the
+    non-terminal classes AS A NORMAL FORM (in particular independent of v0: parents that finished while the update was open have
+    already been subtracted from it), Ready iff that sum is 0, cancelled' = cancelled OR some finished earlier parent is not Success;
+    otherwise the job is left alone.  Which jobs the statement ranges over is decided from the normal form of its conditions: this
+    batch, the id range reserved by the update, aggregates grouped and joined per child."""
     r = prog.routine('commit_batch_update')
     params = jg.routine_params(prog, 'commit_batch_update')
     ctx.need({'in_batch_id', 'in_update_id'} <= set(params), f'commit_batch_update: parameters {params}')
-    tabs = ['jobs', 'job_parents', 'batch_updates', 'job_groups_inst_coll_staging', 'batches', 'job_groups']
-    jg.need_no_trigger_feedback(prog, tabs)
-    schema = jg.full_schema(prog)
+    jg.need_no_trigger_feedback(prog, ['jobs', 'job_parents', 'batch_updates', jg.STAGING, 'batches', 'job_groups'])
     cons = f'{r.file}::commit_batch_update::recount'
     writers = [st for st in sf.all_statements(r.ast.body) if st.kind == 'update' and 'jobs' in [t.lower() for t, _ in sf.written_tables(st)]]
     ctx.need(writers, 'commit_batch_update: no statement updates jobs (recount not found)')
     line = r.line_of(writers[0])
-    START, N = 10, 5  # update 2 reserves job ids 10..14
-    options = [(s_, True) for s_ in STATES + [None]] + [('Pending', False)]
-    parent_sets = [()] + [(o,) for o in options] + list(itertools.combinations_with_replacement(options, 2))
-
-    def job(b, j, state, npp=0, canc=0, upd=1):
-        return dict(batch_id=b, job_id=j, state=state, n_pending_parents=npp, cancelled=canc, always_run=0, update_id=upd, job_group_id=0, attempt_id=None)
-
-    def world(parents, v0, c_old):
-        jobs = [job(1, 12, 'Pending', v0, c_old, 2), job(1, 13, 'Pending', 1, 0, 2), job(1, 14, 'Pending', 0, c_old, 2),
-                job(1, 9, 'Running'), job(1, 5, 'Running'), job(1, 2, 'Failed'), job(1, 15, 'Pending', 1, 0, 3),
-                job(2, 12, 'Pending', 1, 0, 2), job(2, 3, 'Success')]
-        jp = [dict(batch_id=1, job_id=13, parent_id=9), dict(batch_id=1, job_id=5, parent_id=2), dict(batch_id=1, job_id=15, parent_id=2),
-              dict(batch_id=2, job_id=12, parent_id=3)]
-        e_ids, s_ids = [3, 4], [10, 11]
-        present = set()
-        for pstate, earlier in parents:
-            pid = e_ids.pop(0) if earlier else s_ids.pop(0)
-            jp.append(dict(batch_id=1, job_id=12, parent_id=pid))
-            if pstate is not None:
-                jobs.append(job(1, pid, pstate, 0, 0, 1 if earlier else 2))
-                present.add(pid)
-        for pid in (10, 11):
-            if pid not in present:
-                jobs.append(job(1, pid, 'Pending', 0, 0, 2))
-        rows = {
-            'jobs': jobs, 'job_parents': jp,
-            'batch_updates': [dict(batch_id=1, update_id=1, committed=1, n_jobs=9, start_job_id=1, time_committed=1),
-                              dict(batch_id=1, update_id=2, committed=0, n_jobs=N, start_job_id=START, time_committed=None),
-                              dict(batch_id=2, update_id=2, committed=0, n_jobs=1, start_job_id=12, time_committed=None)],
-            'job_groups_inst_coll_staging': [dict(batch_id=1, update_id=2, job_group_id=0, inst_coll='x', token=0, n_jobs=3, n_ready_jobs=0, ready_cores_mcpu=0),
-                                             dict(batch_id=1, update_id=2, job_group_id=0, inst_coll='x', token=1, n_jobs=2, n_ready_jobs=0, ready_cores_mcpu=0),
-                                             dict(batch_id=2, update_id=2, job_group_id=0, inst_coll='x', token=0, n_jobs=1, n_ready_jobs=0, ready_cores_mcpu=0)],
-            'batches': [dict(id=1, state='complete', n_jobs=9, time_completed=500), dict(id=2, state='complete', n_jobs=0, time_completed=500)],
-            'job_groups': [dict(batch_id=1, job_group_id=0, state='complete', n_jobs=9, time_completed=500), dict(batch_id=2, job_group_id=0, state='complete', n_jobs=0, time_completed=500)],
-        }
-        return jg.World(schema, rows)
-
-    fails: Dict[str, str] = {}
-    n_cases = 0
+    scn, syms = jg.commit_scenario(prog)
+    pend = jg.Lin({jg.pc_sym(pc): 1 for pc in jg.PARENT_CLASSES if pc[0] in NONTERMINAL}, 0)
+    failed_l = jg.Lin({jg.pc_sym(pc): 1 for pc in jg.PARENT_CLASSES if pc[0] is not None and pc[0] not in NONTERMINAL and pc[0] != 'Success'}, 0)
+    missing_l = jg.Lin({jg.pc_sym((None, True)): 1}, 0)
+    v0 = jg.Lin({'v0': 1}, 0)
     stmts_seen: List[str] = []
-    cols = ('state', 'n_pending_parents', 'cancelled')
-    for parents in parent_sets:
-        n_term_earlier = sum(1 for pstate, earlier in parents if earlier and pstate is not None and pstate not in NONTERMINAL)
-        for k in range(0, n_term_earlier + 1):
-            v0 = len(parents) - k
-            for c_old in (0, 1):
-                n_cases += 1
-                w = world(parents, v0, c_old)
-                before = {(x['batch_id'], x['job_id']): dict(x) for x in w.rows['jobs']}
-                it = jg.Interp(prog, w)
-                it.call('commit_batch_update', {'in_batch_id': 1, 'in_update_id': 2, 'in_timestamp': 1000})
-                after = {(x['batch_id'], x['job_id']): x for x in w.rows['jobs']}
-                for s_ in jg.jobs_writers(it, 'jobs'):
-                    if s_ not in stmts_seen:
-                        stmts_seen.append(s_)
-                ctx.need([x for x in w.rows['batch_updates'] if x['batch_id'] == 1 and x['update_id'] == 2][0]['committed'] not in (0, None),
-                         'commit_batch_update: the modelled update is not committed by the call (commit path not recognised)')
-                for row in after.values():
-                    for col in cols:
-                        ctx.need(row[col] is not jg.UNK, f'commit_batch_update: jobs.{col} receives a value the model cannot determine')
-                desc = [f'{"a parent id without job row" if s_ is None else s_}{"" if e_ else " (same update)"}' for s_, e_ in parents]
-                hist = f'child with parents {desc}, stored n_pending_parents={v0}, cancelled={c_old} before the commit'
-                got = after[(1, 12)]
-                want_pending = sum(1 for pstate, _ in parents if pstate in NONTERMINAL)
-                want_state = 'Ready' if want_pending == 0 else 'Pending'
-                failed = any(pstate is not None and pstate not in NONTERMINAL and pstate != 'Success' for pstate, _ in parents)
-                missing = any(pstate is None for pstate, _ in parents)
-                ok = got['state'] == want_state and got['n_pending_parents'] == want_pending and (missing or bool(got['cancelled']) == bool(failed or c_old))
-                if not ok:
-                    fails.setdefault('model', f'{hist} ends as {_fmt_row(got)}; the dependency rule requires (state={want_state}, n_pending_parents={want_pending}, cancelled={int(failed or c_old)}) '
-                                     '(pending = parents not in a terminal state; a stored count already decremented by a parent that finished while the update was open must not be '
-                                     'decremented again; a parent id without a job row must not block the child forever; a parentless job of the update must become Ready)')
-                g14 = after[(1, 14)]
-                if not (g14['state'] == 'Ready' and g14['n_pending_parents'] == 0 and bool(g14['cancelled']) == bool(c_old)):
-                    fails.setdefault('model', f'parentless job of the committed update (cancelled={c_old} before) ends as {_fmt_row(g14)}; expected (state=Ready, n_pending_parents=0, cancelled={c_old}): '
-                                     'a job without parents that is not made Ready at commit never runs')
-                g13 = after[(1, 13)]
-                if not (g13['state'] == 'Pending' and g13['n_pending_parents'] == 1 and not g13['cancelled']):
-                    fails.setdefault('per child', f'{hist}: ANOTHER job of the same update, whose only parent is Running, ends as {_fmt_row(g13)}; expected (state=Pending, n_pending_parents=1, cancelled=0) '
-                                     '- each child must be recounted over its own parents only')
-                for key in ((1, 9), (1, 5), (1, 2), (1, 15), (1, 3), (1, 4), (1, 10), (1, 11)):
-                    if key in before and key not in ((1, 10), (1, 11)) and any(before[key][c_] != after[key][c_] for c_ in cols):
-                        fails.setdefault('range', f'{hist}: job {key[1]} of batch 1, which does not belong to the committed update (its ids are {START}..{START + N - 1}), changes from {_fmt_row(before[key])} to '
-                                         f'{_fmt_row(after[key])}; running or finished jobs of earlier updates must not be re-evaluated (a Running job set back to Ready is executed twice)')
-                for key in ((2, 12), (2, 3)):
-                    if any(before[key][c_] != after[key][c_] for c_ in cols):
-                        fails.setdefault('other batch', f'{hist}: job {key[1]} of ANOTHER batch changes from {_fmt_row(before[key])} to {_fmt_row(after[key])}')
-    detail = {'cases': n_cases, 'parent_multisets': len(parent_sets), 'statements': stmts_seen}
+
+    def run(case: jg.Case):
+        fails: Dict[str, Tuple[str, int]] = {}
+        try:
+            ex = jg.AbsExec(prog, scn, case)
+            ex.tolerate = {'job_groups', 'batches'}
+            ex.call('commit_batch_update', {'in_batch_id': syms['B'], 'in_update_id': syms['U'], 'in_timestamp': jg.Sym('commit_timestamp')})
+        except jg.Mismatch as mm:
+            if mm.table != 'jobs':
+                raise AnalysisError(f'commit_batch_update: {mm.what}')
+            return {(mm.kind or 'range'): (f'`{text(mm.st)[:90]}`: {mm.what}', r.line_of(mm.st))}, False
+        except jg.DependsOn as dp:
+            return {'model': (f'the recount decides the new state / count of the job by testing `{dp.form}` against 0, i.e. from the STORED n_pending_parents (v0).  The stored count is not stable between '
+                              'the insertion of the job and the commit: mark_job_complete decrements the children of a finishing job whether or not their update is committed, so a parent of an earlier update '
+                              'that finishes in that window is taken off twice - the child becomes Ready while another parent is still running', line)}, True
+        E = ex.E
+        for s_ in jg.statement_texts(ex, 'jobs'):
+            if s_ not in stmts_seen:
+                stmts_seen.append(s_)
+        child = ex.rows[('jobs', 'child')]
+        for col in ('state', 'n_pending_parents', 'cancelled'):
+            ctx.need(child[col] is not jg.UNK, f'commit_batch_update: jobs.{col} receives a value the abstraction cannot determine')
+        upd = ex.rows[('batch_updates', 'u')]['committed']
+        committed_now = not isinstance(upd, jg.EnumVal) and bool(E.res(upd)) and case.choice.get('committed') == 0
+        c_same = isinstance(child['cancelled'], jg.EnumVal)
+        n1 = child['n_pending_parents']
+        st1 = E.res(child['state'])
+        untouched = jg.lin_of(n1) is not None and case.norm(jg.lin_of(n1) - v0).is_const() and case.norm(jg.lin_of(n1) - v0).const == 0 and st1 == 'Pending' and c_same
+        applicable = committed_now and case.sign(jg.Lin({'NU': 1}, 0)) > 0 and case.sign(jg.lin_of(syms['U']) - jg.Lin({}, 1)) > 0
+        if not applicable:
+            if not untouched and not committed_now:
+                fails['model'] = ('this call does not commit the update (already committed, or the staged job count does not match), yet a job of the update is rewritten to '
+                                  f'(state={st1}, n_pending_parents={_show(n1)}): jobs that are already running would be set back', line)
+            return fails, False
+        l1 = jg.lin_of(n1)
+        ctx.need(l1 is not None, 'commit_batch_update: n_pending_parents receives a non-numeric value')
+        d = case.norm(l1 - pend)
+        if 'v0' in d.coef:
+            fails['model'] = (f'the new n_pending_parents is {_show(n1)}: it depends on the STORED count (v0), which parents that finished while the update was open have already decremented '
+                              '(mark_job_complete decrements the children of a finishing job whether or not their update is committed); the recount must be a function of the parents\' states only: '
+                              f'expected {pend!r}', line)
+        elif not E.eq(n1, pend):
+            fails['model'] = (f'the new n_pending_parents is {_show(n1)}, expected the number of parents that are not in a terminal state, {pend!r} '
+                              '(a parent id without a job row must not block the child for ever; a parentless job has 0)', line)
+        want_state = 'Ready' if case.sign(pend) == 0 else 'Pending'
+        if st1 != want_state and 'model' not in fails:
+            fails['model'] = (f'the job ends in state {st1}, expected {want_state} (Ready exactly when no parent is left in a non-terminal state; a parentless job of the update must become Ready, '
+                              'otherwise it never runs)', line)
+        missing = case.sign(missing_l) > 0
+        failed = case.sign(failed_l) > 0
+        c0 = E.res(jg.EnumVal('child_cancelled'))
+        c1 = c0 if c_same else E.res(child['cancelled'])
+        if not missing and bool(c1) != bool(failed or c0) and 'model' not in fails:
+            fails['model'] = (f'the job gets cancelled={_show(c1)}, expected {int(bool(failed or c0))} (raised exactly when some already finished parent did not succeed - also while other parents '
+                              'are still running - and never lowered)', line)
+        return fails, True
+
+    results = jg.explore(scn.dom, run)
+    n_app = sum(1 for _, (f_, a_) in results if a_)
+    mism = any(k in ('range', 'per child', 'other batch') for _, (f_, a_) in results for k in f_)
+    ctx.need(n_app > 0 or mism, 'commit_batch_update: no abstract case commits a later update with jobs (commit path not recognised)')
+    first: Dict[str, Tuple[str, str, int]] = {}
+    for case, (fails, _) in results:
+        for k, (msg, ln) in fails.items():
+            first.setdefault(k, (case.describe(), msg, ln))
+    detail = {'abstract_cases': len(results), 'committing_cases': n_app, 'parent_classes': len(jg.PARENT_CLASSES), 'statements': stmts_seen}
     for key in ('model', 'per child', 'range', 'other batch'):
-        ctx.check(key not in fails, 'R3', f'{cons}::{key}', fails.get(key, '') + (f' [statements writing jobs: {stmts_seen}]' if key in fails else ''), r.file, line, detail=detail,
-                  extra={'cases': n_cases} if key in fails else None)
-    ctx.unit('recount_model_cases', n_cases)
+        if key in first:
+            where, msg, ln = first[key]
+            ctx.bad('R3', f'{cons}::{key}', f'case [{where}]: {msg} [statements writing jobs: {stmts_seen}]', r.file, ln or line, extra={'cases': len(results)})
+        else:
+            ctx.ok('R3', f'{cons}::{key}', detail)
+    ctx.unit('recount_abstract_cases', len(results))
 
 
 def r4(ctx: Ctx) -> None:
@@ -339,5 +328,5 @@ def run(ctx: Ctx) -> None:
     prog = sf.load_program()
     r1(ctx)
     r2(ctx, prog)
-    # r3(ctx, prog)
+    r3(ctx, prog)
     r4(ctx)
